@@ -55,7 +55,8 @@ def gen_case(rng, byte):
     if opc == 13 and o == 3:
         # system call: choose areg, sp and argument slots
         a = rng.choice([0, 1, 2, 0, 1, 2, 3, 4, 0xffffffff]) if rng.random() < 0.9 else val()
-        sp = rng.choice([10, 100, MEMW - 4, MEMW - 5, rng.randrange(2, MEMW - 4), rng.randrange(2, MEMW - 4)])
+        sp = rng.choice([10, 100, MEMW - 4, MEMW - 5, rng.randrange(2, MEMW - 4), rng.randrange(2, MEMW - 4), rng.randrange(2, MEMW - 4),
+                         rng.choice([0, 1, W - 1, W - 2, W - 3])])      # argument slots that wrap around 2^32 / fall on words 0 and 1
         if (pc >> 2) != 1:
             cells[1] = sp
         else:
